@@ -62,11 +62,12 @@ impl Property for C09 {
         ]
     }
 
-    fn run_case(&self, k: u64, rng: &mut Rng, _env: &Env, mon: &mut Monitor) {
+    fn run_case(&self, k: u64, rng: &mut Rng, env: &Env, mon: &mut Monitor) {
         let uniform = k % 2 == 1;
         let method = if uniform { "uniform_penalty_method" } else { "penalty_method" };
         let regime = if rng.chance(5, 6) { Regime::D } else { Regime::R };
         let mut cfg = InstCfg::new(regime);
+        cfg.deepen(env.tier == Tier::Thorough, k);
         cfg.max_degree = 2;
         cfg.dup_positions = false;
         // an absent function (`function: None`) is generated; a present message with an unset oneof is not:
